@@ -3,6 +3,7 @@ package main
 import (
 	"fmt"
 	"go/ast"
+	"go/token"
 	"go/types"
 	"sort"
 	"strings"
@@ -62,6 +63,7 @@ func (e *Engine) verifyContract(c *Contract) (res *UnitResult) {
 		res.Err = "contract-stale: function " + c.Key() + " not found in " + c.Pkg
 		return
 	}
+	e.syntacticClauses(c, fd, u, x)
 	if c.Trusted {
 		return
 	}
@@ -435,5 +437,69 @@ func (e *Engine) verifyLemma(c *Contract, x *Exec) {
 			lab = fmt.Sprint(k + 1)
 		}
 		u.oblige("ensures:"+lab, "lemma", en.Src, fmt.Sprintf("%s:%d", c.File, c.Line), "true", env.Bool(en.Expr))
+	}
+}
+
+// syntacticClauses discharges the clauses that speak about the shape of start-up / wiring
+// code the engine does not execute symbolically (wiring, fresh-elements): decided on the AST.
+func (e *Engine) syntacticClauses(c *Contract, fd *ast.FuncDecl, u *Unit, x *Exec) {
+	pos := func(p token.Pos) string { return (&Frame{x: x}).pos(p) }
+	for _, w := range c.Wiring {
+		n := 0
+		ast.Inspect(fd.Body, func(nd ast.Node) bool {
+			call, ok := nd.(*ast.CallExpr)
+			if !ok || normKey(e.nodeSrc(call.Fun)) != normKey(w.Callee) {
+				return true
+			}
+			n++
+			subst := func(t string) string {
+				for i := len(call.Args) - 1; i >= 0; i-- {
+					t = strings.ReplaceAll(t, fmt.Sprintf("$arg%d", i), e.nodeSrc(call.Args[i]))
+				}
+				return normKey(t)
+			}
+			goal := "true"
+			if subst(w.Lhs) != subst(w.Rhs) || strings.Contains(subst(w.Lhs), "$arg") {
+				goal = "false"
+			}
+			u.oblige("wiring:"+w.Callee+":"+w.Lhs+" == "+w.Rhs, "frame", "every call of "+w.Callee+": "+w.Lhs+" == "+w.Rhs+" (source text)", pos(call.Pos()), "true", goal)
+			return true
+		})
+		if n == 0 {
+			u.oblige("wiring:"+w.Callee+":unmatched", "contract-stale", "wiring clause names a callee the function never calls", pos(fd.Pos()), "true", "false").Clause = "contract-stale: no call of " + w.Callee
+		}
+	}
+	for _, nm := range c.FreshElems {
+		n := 0
+		ast.Inspect(fd.Body, func(nd ast.Node) bool {
+			as, ok := nd.(*ast.AssignStmt)
+			if !ok {
+				return true
+			}
+			for i, l := range as.Lhs {
+				ix, ok := ast.Unparen(l).(*ast.IndexExpr)
+				if !ok {
+					continue
+				}
+				id, ok := ast.Unparen(ix.X).(*ast.Ident)
+				if !ok || id.Name != nm {
+					continue
+				}
+				n++
+				goal := "false"
+				if len(as.Rhs) == len(as.Lhs) {
+					if call, ok := ast.Unparen(as.Rhs[i]).(*ast.CallExpr); ok {
+						if f, ok := call.Fun.(*ast.Ident); ok && f.Name == "make" {
+							goal = "true"
+						}
+					}
+				}
+				u.oblige("fresh-elements:"+nm, "frame", "every element stored into "+nm+" is a fresh make(...)", pos(as.Pos()), "true", goal)
+			}
+			return true
+		})
+		if n == 0 {
+			u.oblige("fresh-elements:"+nm+":unmatched", "contract-stale", "no element of "+nm+" is ever assigned", pos(fd.Pos()), "true", "false").Clause = "contract-stale: no assignment to an element of " + nm
+		}
 	}
 }
